@@ -60,7 +60,15 @@ def run_retain(ctx):
         res.bad("retain:last-kept", "create_instructions must filter only the non-last statements", b.where())
     arms = set()
     other = 0
-    for cb in lib.closures_of(fid):
+    # the filter: a closure of create_instructions, or a private function handed to `retain` by name
+    named = []
+    for c in retain:
+        for a in c.args:
+            if isinstance(a, dict) and a.get("k") == "const" and "fn" in a:
+                nb = lib.body(a["fn"].get("resolved") or a["fn"]["path"])
+                if nb is not None:
+                    named.append(nb)
+    for cb in list(lib.closures_of(fid)) + named:
         sws = enum_switches(cb, "instruction::Instruction")
         if not sws:
             continue            # the map closure that builds the statements
